@@ -21,6 +21,14 @@ CHECKS = {
    text="TLC explores spec/proto/ProtocolSM.tla: every protocol shape up to the bound x every API call in every reachable state, for four API models (C++ writer, C++ reader with single and batch reads, Python writer, Python reader), checking that the implementation-shaped state machines (generated state numbering) refine the abstract step-order requirement; one shortest call history per (state, call) is exported and performed on the real generated readers/writers (accept/raise per call, delivered counts); a 130-step protocol exercises the state counter width.",
    note="Shapes of length <=3 (quick) / <=4 (thorough), two items per stream. 'either' where the property is silent (fully delivered stream whose end was not observed; Python stream step never written). Sequences end at the first rejected call. MATLAB not executed.",
    tech="TLA+ state machine + TLC exhaustive exploration with VIEW; replay of exported call histories on generated code"),
+ "C11": dict(cat="model_checking", engine="tlc+cli-replay+trace-validation",
+   text="spec/tool/Pipeline.tla models the command as phases (Load, Override, Parse, ValidateNs, ValidateVersion, Evolution, Generate, Exit); TLC enumerates every configuration (error location in {manifest, main package, import level 1/2, previous version, import of a previous version, evolution check, duplicate version label, bad -c override} x error kind x enabled targets x output directory state x command x whether importers reference their imports) and checks NoWriteBeforeAllValidated / ErrorImpliesUntouched / ErrorAnywhereImpliesExitNonZero. Every configuration is concretised as a 5-package project and run through the real CLI (exit status; path/sha256/mtime/mode snapshots of every output directory before and after), and the verif-hook trace of every run is validated by TLC against spec/trace/PipelineTrace.tla, whose enabling conditions are the ordering discipline (no WriteFile before Validated, no ValidateNs before the whole closure is parsed, no write before an error exit).",
+   note="Quick: every (location, kind, command, output state, uses) with three seeded target sets; thorough: all 700+ configurations. Local directory imports/versions only. A corrupted trace (write moved before validation) is checked to be rejected on every run (binding self-test).",
+   tech="TLA+ spec + TLC configuration enumeration; CLI replay with filesystem snapshots; trace validation of hook events against a TLA+ trace spec (POSTCONDITION high-water mark)"),
+ "C15": dict(cat="model_checking", engine="tlc-replay+generated-code",
+   text="spec/wire/Header.tla describes stream headers symbolically (binary: magic, format version, schema length, schema text; NDJSON: first line) and the reader-open machine; TLC enumerates every header with at most two simultaneous faults (each magic byte altered, four wrong versions, three wrong lengths, seven truncation points, schemas of a protocol differing in one field type, of an unregistered and of a registered previous version, of a foreign protocol, one changed character, non-JSON, NDJSON first-line faults) and checks AcceptOnlyKnown / RejectOnlyBad / NoValueBeforeAccept. Every terminal state is concretised around real schema text and a real stream body of the protocol the schema belongs to, and fed to the four generated readers (C++/Python x binary/NDJSON): a required rejection must raise before any value is delivered.",
+   note="One reader protocol with four companion protocols. Acceptance of a registered previous version is asserted for the C++ binary reader only. A JSON-equal but re-serialised own schema is 'either' (C++ compares ordered JSON, Python unordered).",
+   tech="TLA+ state machine + TLC enumeration of symbolic header faults; replay of every terminal state on generated readers"),
  "C16": dict(cat="model_checking", engine="tlc+generated-code-cuts",
    text="spec/wire/CodedStream.tla models the buffered C++ input stream with a parametric buffer size (4 in TLC, 65536 in the code): TLC explores every plan of read operations (byte, 1-3 byte varints, fixed integers, byte runs longer than the buffer) x every cut position and checks NeverReadBeyondEnd / ValuesCorrect / CutImpliesError; the misbehaving (operation, position relative to the buffer boundary) classes it finds for the code as first found were reproduced on the real reader and repaired, and the current-code configuration holds. The binding feeds truncated spec-composed streams to the generated C++ and Python readers: probes of 7 element kinds aligned r = 0..len+1 bytes before the 64 KiB boundary cut at every byte, every byte position of small multi-type streams (binary and NDJSON), and cuts around every 64 KiB multiple and inside >64 KiB elements of a 700 KB stream. Each cut must raise, must not crash, and whatever was delivered before must equal what was written.",
    note="Readers copy into an NDJSON writer in-process; delivered values are the complete lines written before the error, compared with the complete run. NDJSON cuts at a line boundary inside a trailing run of stream steps are well-formed shorter streams (no end marker in the format) and are not asserted. Sanitizer build only in the thorough tier.",
